@@ -145,10 +145,13 @@ class ValidatorLoop(LoopSpec):
         self.via_list = via_list
 
     def data(self, L, st):
-        return to_val(L.entry.loc["data"] if L.entry is not None else st.loc["data"])
+        from pyvc.loops import param_name
+        nm = param_name(L.fi, 0)
+        return to_val(L.entry.loc[nm] if L.entry is not None else st.loc[nm])
 
     def prepare(self, L, st):
-        d = to_val(st.loc["data"])
+        from pyvc.loops import param_name
+        d = to_val(st.loc[param_name(L.fi, 0)])
         for k, pname in enumerate(VALIDATOR_PREDS[self.fname]):
             L.sk[f"idx_{pname}"] = witness(pname)(d)
         for f in self.link(L, st, d):
